@@ -22,8 +22,6 @@ macro_rules! label {
     ($span:expr, $message:expr $(,)?) => { crate::error::mk_label_msg($span, $message) };
     ($span:expr, $fmt:literal, $($arg:expr),+) => { crate::error::mk_label_msg($span, format!($fmt, $($arg),+)) };
 }
-// panic!(fmt, ..): same panic, message formatting dropped (no Debug impls are extracted)
-macro_rules! panic { ($fmt:literal $(, $arg:expr)* $(,)?) => { { $( let _ = &$arg; )* ::core::panic!("explicit panic") } }; }
 // format!: the arguments are evaluated, the resulting String is unspecified
 macro_rules! format { ($fmt:literal $(, $arg:expr)* $(,)?) => { { $( let _ = &$arg; )* crate::error::fmt_opaque() } }; }
 
